@@ -36,7 +36,9 @@ CaseCode(c) ==
                   + 32 * (CASE c.route = "inst" -> 0 [] c.route = "kwargs" -> 1 [] c.route = "argv" -> 2)
                   + 128 * (CASE c.cfgsrc = "arg" -> 0 [] c.cfgsrc = "class" -> 1 [] c.cfgsrc = "none" -> 2)
                   + (IF c.layout = "nested" THEN 512 ELSE 0) + (IF c.default = <<"F">> THEN 1024 ELSE 0))
-    IN Mix(h2 + LookupsCode(c.lookups, 1))
+        sp == CASE c.spell = "same" -> 0 [] c.spell = "dot" -> 1 [] c.spell = "up" -> 2 [] c.spell = "abs" -> 3
+                 [] c.spell = "redundant" -> 4 [] c.spell = "symlink" -> 5
+    IN Mix(Mix(h2 + LookupsCode(c.lookups, 1)) + sp)
 
 Emitted(c) ==
     \/ c.bad # "none"
